@@ -151,11 +151,24 @@ func (x *XObject) Count() int {
 
 // Get retrieves the named property
 func (x *XObject) Get(key string) (XValue, bool) {
+	props := x.properties()
+
+	// an exact match always wins
+	if v, found := props[key]; found {
+		return v, true
+	}
+
+	// otherwise lookups are case-insensitive.. if there are multiple properties which only differ by case, then it's the
+	// first in sort order that wins so that the result doesn't depend on map ordering
 	key = strings.ToLower(key)
-	for p, v := range x.properties() {
-		if strings.ToLower(p) == key {
-			return v, true
+	match, found := "", false
+	for p := range props {
+		if strings.ToLower(p) == key && (!found || p < match) {
+			match, found = p, true
 		}
+	}
+	if found {
+		return props[match], true
 	}
 
 	return nil, false
